@@ -497,16 +497,21 @@ _C14 = [
      'params': {'args': 'List Str', 'sep': 'Str'},
      'kind': 'function', 'result': 'Str', 'raises': True, 'tie_theorem': 'C14.src_args2sh_eq_model'},
 ]
-# `args2cmd` TRANSLATES and passes the translator self-test (iteration over the characters of a string, `str * int`,
-# nested loops, the flag read after the inner loop: rules `iter` / `mul` of py2lean_c14), but its tie theorem is not
-# proved yet (notes/SRCTIE.md section 1h): the spec is kept here, outside SPECS, so that the check does not list a
-# translated function without a theorem.  `PYTHONPATH=harness python -c "import py2lean_c14; py2lean_c14.selftest_pending()"`
-C14_PENDING = [
+# `args2cmd` (round 3f): iteration over the characters of a string, `str * int`, nested loops, the flag read after the
+# inner loop (rules `iter` / `mul` of py2lean_c14); tied in C14/SrcTie.lean section 12 (notes/SRCTIE.md section 1h).
+_C14.append(
     {'module': 'boltons.strutils', 'qualname': 'args2cmd', 'lean_name': 'args2cmd',
      'params': {'args': 'List Str', 'sep': 'Str'},
-     'kind': 'function', 'result': 'Str', 'raises': True, 'tie_theorem': 'C14.src_args2cmd_eq_model',
-     'ext': 'py2lean_c14', 'gen_file': 'strutils_c14'},
-]
+     'kind': 'function', 'result': 'Str', 'raises': True, 'tie_theorem': 'C14.src_args2cmd_eq_model'})
+# `escape_shell_args` (round 3f): `sys.platform` is a spec-declared EXTERNAL INPUT (rule `extern` of py2lean_c14: the
+# trailing parameter `_sys_platform`; the self-test patches the real attribute for the call: `py_call`); a falsy style
+# (`None` / `''`) is the empty string, as in the model.
+_C14.append(
+    {'module': 'boltons.strutils', 'qualname': 'escape_shell_args', 'lean_name': 'escape_shell_args',
+     'params': {'args': 'List Str', 'sep': 'Str', 'style': 'Str', '_sys_platform': 'Str'},
+     'extern_params': {'sys.platform': '_sys_platform'}, 'py_call': True,
+     'kind': 'function', 'result': 'Str', 'raises': True, 'tie_theorem': 'C14.src_escape_shell_args_eq_model'})
+C14_PENDING = []
 for _sp in _C14:
     _sp.update(ext='py2lean_c14', gen_file=_C14_GEN)
 
